@@ -23,6 +23,9 @@ class Env:
         self.single = None
 
     def lib(self, variant='asan'):
+        # tools/coverage.py: the same workloads against the gcov build (no sanitizer), to measure reach
+        if variant == 'asan' and os.environ.get('VP_LIB_VARIANT'):
+            variant = os.environ['VP_LIB_VARIANT']
         if variant not in self._libs:
             self._libs[variant] = build.build(variant)
         return self._libs[variant]
